@@ -358,15 +358,17 @@ Proof.
   assert (Hb : blen (a ++ suf) <? DOMAIN_LEN = false).
   { apply N.ltb_ge. unfold blen. rewrite app_length, Hl. rewrite domain_len_pinned. lia. }
   rewrite Hb.
-  replace (length (a ++ suf) - N.to_nat DOMAIN_LEN)%nat with (length a)
-    by (rewrite app_length, Hl, domain_len_pinned; simpl; lia).
-  rewrite slice_ok; try lia.
+  assert (Hlen : (length (a ++ suf) - N.to_nat DOMAIN_LEN)%nat = length a).
+  { rewrite app_length, Hl, domain_len_pinned. change (N.to_nat 12) with 12%nat. lia. }
+  rewrite Hlen.
+  rewrite (slice_ok (a ++ suf) 0 (length a)).
+  2:{ lia. }
   2:{ rewrite app_length. lia. }
   2:{ reflexivity. }
   2:{ eapply boundary_at_noncont.
       - replace (length a) with (length a + 0)%nat by lia. rewrite nth_error_app_r. exact Hd.
       - reflexivity. }
-  simpl bind. rewrite firstn_skipn0, firstn_app, Nat.sub_diag, firstn_all. simpl firstn. rewrite app_nil_r.
+  cbn [bind]. rewrite firstn_skipn0, firstn_app, Nat.sub_diag, firstn_all. simpl firstn. rewrite app_nil_r.
   destruct (last_map_some (split_on DOT a) (split_on_nonempty DOT a)) as (name & -> & Hin).
   destruct (first_is USC name) eqn:F; simpl; [|apply total_err].
   destruct name as [|x rest]; [discriminate|]. simpl in F. apply N.eqb_eq in F. subst x.
